@@ -79,8 +79,14 @@ pub fn m_histories(sizes: &[usize]) -> Vec<Vec<String>> {
                 }
                 h.push("Clear()".into());
                 h.push("Clear()".into());
-                for &i in ins.iter().take(3) {
+                // third epoch: twice as many entries as before the clear (keys on the even ids as well), so that
+                // every slot the clear put on the free list is handed out again and the arena grows further
+                for &i in ins.iter() {
                     h.push(format!("Ins({})", key(i)));
+                    h.push(format!("Ins({})", key(i) + 1));
+                }
+                for &i in del.iter().step_by(2) {
+                    h.push(format!("Del({})", key(i) + 1));
                 }
                 out.push(h);
             }
@@ -140,11 +146,54 @@ pub fn k_histories(sizes: &[usize], tmax: usize) -> Vec<Vec<String>> {
                 h.push("Clear()".into());
                 for &i in ins.iter() {
                     h.push(format!("Ins({},{})", key(i), 2 + (i + pat) % 3));
+                    h.push(format!("Ins({},{})", key(i) + 1, 1 + (i + pat) % 3));
                 }
                 h.push("Tick()".into());
                 h.push("Tick()".into());
                 for i in (0..n).step_by(2) {
                     h.push(format!("GET({})", key(i)));
+                }
+                out.push(h);
+            }
+        }
+    }
+    out
+}
+
+/// expiring tree, second family: inserts that descend through nodes which have expired but were never
+/// touched by a query (so lazy removal, two-children removals and the repairs they trigger happen inside
+/// `insert`), in three waves separated by clock ticks, followed by re-insertion of expired keys.
+pub fn k_histories_waves(sizes: &[usize], tmax: usize) -> Vec<Vec<String>> {
+    let mut out = vec![];
+    for &n in sizes {
+        let key = |i: usize| 2 * i + 1;
+        for (oi, (_, ins)) in orders(n).into_iter().enumerate() {
+            for pat in 0..8usize {
+                let wave = |i: usize| (i * (1 + pat % 3) + pat / 3) % 3;
+                let exp0 = |i: usize| 1 + (i * (2 * pat + 3) + oi) % 3;
+                let mut h: Vec<String> = vec![];
+                for w in 0..3usize {
+                    for &i in ins.iter() {
+                        if wave(i) == w {
+                            let e = (w + exp0(i)).min(tmax + 1);
+                            h.push(format!("Ins({},{})", key(i), e));
+                        }
+                    }
+                    h.push("Tick()".into());
+                }
+                // clock is 3 now: re-insert keys whose entry has expired, without looking them up first
+                for &i in ins.iter() {
+                    let e = (wave(i) + exp0(i)).min(tmax + 1);
+                    if e <= 3 {
+                        h.push(format!("Ins({},{})", key(i), tmax + 1));
+                    }
+                }
+                let step = (n / 5).max(1);
+                let mut q = pat % step;
+                while q <= 2 * n {
+                    h.push(format!("FLEBY({q})"));
+                    h.push(format!("GET({q})"));
+                    q += step;
                 }
                 out.push(h);
             }
@@ -188,6 +237,34 @@ pub fn s_histories(nr: usize) -> Vec<Vec<String>> {
             h.push("Q(r0,5,all)".into());
             h.push("Q(r0,6,all)".into());
             out.push(h);
+        }
+    }
+    for ra in 0..nr {
+        for rb in 0..nr {
+            if ra == rb {
+                continue;
+            }
+            // a crowded list that expires as a whole next to another list with an expired copy
+            for n in [15usize, 16, 17, 33] {
+                for first in 0..2 {
+                    let mut h: Vec<String> = vec![];
+                    if first == 0 {
+                        h.push(format!("Ins(r{rb},1)"));
+                    }
+                    for _ in 0..n {
+                        h.push(format!("Ins(r{ra},1)"));
+                    }
+                    if first == 1 {
+                        h.push(format!("Ins(r{rb},1)"));
+                    }
+                    h.push(format!("Ins(r{rb},7)"));
+                    h.push("Q(r0,5,all)".into());
+                    h.push("Q(r0,5,all)".into());
+                    h.push(format!("Q(r{rb},6,all)"));
+                    h.push("Q(r0,8,all)".into());
+                    out.push(h);
+                }
+            }
         }
     }
     for ra in 0..nr {
